@@ -5,7 +5,7 @@ use crate::gen;
 use crate::proto::*;
 use proptest::collection::vec;
 use proptest::prelude::*;
-use serde_json::json;
+use serde_json::{json, Value};
 
 pub struct Duplicates {
   pub proto: Proto,
@@ -125,6 +125,9 @@ fn long_key(tail: u8) -> String {
 fn random_op() -> BoxedStrategy<BOp> {
   prop_oneof![
     12 => (0usize..9, 0usize..1000).prop_map(|(k, n)| set_op(k, n)),
+    // values at the edge of the JSON data model on the custom keys: null (None, unit), empty containers, huge numbers
+    3 => (any::<bool>(), 0u8..6).prop_map(|(a, v)| BOp::Set(ClaimSpec::Custom(if a { "a" } else { "b" }.to_string(), [Value::Null, json!([]), json!({}), json!(u64::MAX), json!(-0.0), json!("")][v as usize].clone()))),
+    1 => any::<bool>().prop_map(|a| BOp::Set(ClaimSpec::Native(if a { "a" } else { "b" }.to_string(), NativeVal::OptNone))),
     4 => (any::<u16>(), 0usize..1000).prop_map(|(i, n)| BOp::Set(ClaimSpec::Custom(NEAR_KEYS[pick(i, NEAR_KEYS.len())].to_string(), json!(n)))),
     1 => (0u8..3, 0usize..1000).prop_map(|(t, n)| BOp::Set(ClaimSpec::CustomOwned(long_key(t), json!(n)))),
     2 => Just(BOp::Ack),
